@@ -245,7 +245,7 @@ def _pairs_task(task):
 
 
 def run(ctx):
-    depth_pairs = 3 if ctx.thorough else 2
+    depth_pairs = 3 if (ctx.thorough and not worlds.WARM) else 2  # (the warm pass of the thorough tier repeats the quick-sized pair space)
     depth_graph = 4 if ctx.thorough else 3
     with worlds.world("posc") as db:
         model = Model(db)
